@@ -15,6 +15,20 @@ def g(o, name):
 class Monitor(object):
     def __init__(self, static_voters=None):
         self.records = []
+        self.attributed = []      # (finding id, property, message, step)
+        self.journaled = False
+        self.votes = {}           # (voter, term) -> (candidate, incarnation)
+        self.incarnation = {}
+        self.max_term_seen = {}   # voter -> (term, incarnation)
+        self.acked = {}           # nid -> {idx: term} acknowledged to a leader or counted as leader
+        self.member_since = {}
+        self.heard = {}
+        self.shadow = {}
+        self.prev_log = {}
+        self.became_leader_at = {}
+        self.prev_members = {}
+        self.retired = set()      # members whose removal is committed: shutting them down loses nothing
+        self.after_memory_loss = []
         self.step = -1
         self.cmd_at = {}            # idx -> command bytes applied there (first applier defines it)
         self.term_at = {}           # idx -> term of the applied entry
@@ -31,7 +45,19 @@ class Monitor(object):
         self.trigger = {}           # finding triggers seen: name -> first step
         self.stats = {'applies': 0, 'commits': 0, 'elections': 0, 'callbacks': 0, 'snap_installs': 0}
 
-    def rec(self, prop, msg):
+    def rec(self, prop, msg, finding=None):
+        # C01-C04 are stated "as long as no node loses its memory": after a memory-only node was killed
+        # the records are kept apart (attributed to the trigger 'memory_loss'), never reported as violations
+        if self.kills and prop in ('C01', 'C02', 'C03', 'C04', 'C10'):
+            self.after_memory_loss.append((prop, msg, self.step))
+            return
+        # a journaled voter that forgot its term/vote over a restart (known finding KF-C07-1) explains later
+        # safety records of the same trace; before that trigger nothing is excused
+        if finding is None and 'kf_c07_1' in self.trigger and prop in ('C01', 'C02', 'C03', 'C04', 'C06', 'C10'):
+            finding = 'KF-C07-1'
+        if finding is not None:
+            self.attributed.append((finding, prop, msg, self.step))
+            return
         self.records.append((prop, msg, self.step))
 
     # ---- helpers ------------------------------------------------------------------------
@@ -62,15 +88,21 @@ class Monitor(object):
         self.step += 1
         sim = rec.sim
         k = ev[0]
+        self.journaled = bool(rec.cfg.get('journal'))
         if k == 'kill':
-            self.kills += 1
             self.prev.pop(ev[1], None)
-            self.trigger.setdefault('memory_loss', self.step)
+            self.prev_log.pop(ev[1], None)
+            if ev[1] < RO_BASE and ev[1] not in self.retired and not self.journaled:
+                self.kills += 1
+                self.trigger.setdefault('memory_loss', self.step)
             return
         if k == 'restart':
             self.prev.pop(ev[1], None)
-            if ev[1] in self.restarted or self.kills:
-                self.trigger.setdefault('restart', self.step)
+            self.prev_log.pop(ev[1], None)
+            self.incarnation[ev[1]] = self.incarnation.get(ev[1], 0) + 1
+            self.pending_recovery = getattr(self, 'pending_recovery', set())
+            if self.journaled and ev[1] in self.acked:
+                self.pending_recovery.add(ev[1])
             self.restarted.add(ev[1])
         # callbacks (C02)
         for cb, res, err in sim.fired:
@@ -88,6 +120,15 @@ class Monitor(object):
         if nid is None or nid not in sim.nodes:
             return
         o = sim.nodes[nid]
+        # C11 / C12: nothing escapes the tick or the message handler
+        if sim.exc and k in ('tick', 'deliver'):
+            self.rec('C12' if sim.exc == 1 else 'C11',
+                     'exception escaped %s of node %d: %s' % (k, nid, getattr(sim, 'exc_repr', sim.exc)))
+        if k == 'deliver':
+            self.heard.setdefault(ev[2], {})[ev[1]] = ev[3]
+        self.check_c06_c07(rec, sim, ev, nid, o)
+        self.check_c10(rec, sim, nid, o)
+        self.check_c18_c20(rec, sim, ev, nid, o)
         log = self.log_of(o)
         commit, applied = g(o, 'raftCommitIndex'), g(o, 'raftLastApplied')
         pc, pa = self.prev.get(nid, (None, None))
@@ -108,17 +149,26 @@ class Monitor(object):
                              % (idx, self.committed[idx][1], e[2]))
                 self.committed.setdefault(idx, (e[0], e[2]))
                 if not self.kills and nid < RO_BASE:
-                    voters = set(SIM.nid_of(x) for x in g(o, 'otherNodes')) | {nid}
-                    holders = 0
-                    for v in voters:
-                        if v in sim.nodes:
-                            lv = self.log_of(sim.nodes[v])
-                            ev_ = self.entry_at(lv, idx)
-                            if (ev_ is not None and ev_[2] == e[2]) or (lv and lv[0][1] > idx):
-                                holders += 1
-                    if 2 * holders <= len(voters):
+                    # the member set in force when the node decided: its set before or after this step
+                    # (a step may append a membership entry after having advanced the commit index)
+                    after = set(SIM.nid_of(x) for x in g(o, 'otherNodes')) | {nid}
+                    ok_any = False
+                    worst = None
+                    for voters in (self.prev_members.get(nid, after), after):
+                        holders = 0
+                        for v in voters:
+                            if v in sim.nodes:
+                                lv = self.log_of(sim.nodes[v])
+                                ev_ = self.entry_at(lv, idx)
+                                if (ev_ is not None and ev_[2] == e[2]) or (lv and lv[0][1] > idx):
+                                    holders += 1
+                        if 2 * holders > len(voters):
+                            ok_any = True
+                        else:
+                            worst = (holders, len(voters))
+                    if not ok_any:
                         self.rec('C04', 'node %d reports position %d committed while only %d of %d voters store the entry'
-                                 % (nid, idx, holders, len(voters)))
+                                 % (nid, idx, worst[0], worst[1]))
         # C01: what was applied where
         if pa is not None and applied > pa:
             hist_expected_before = None
@@ -203,3 +253,176 @@ class Monitor(object):
                                  % (nid, m, agree_from, idx))
                         break
         self.prev[nid] = (commit, applied)
+        self.prev_members[nid] = set(SIM.nid_of(x) for x in g(o, 'otherNodes')) | {nid}
+
+
+    # ---- C10: membership ---------------------------------------------------------------------------
+    def members_of(self, o):
+        return set(SIM.nid_of(x) for x in g(o, 'otherNodes'))
+
+    def check_c10(self, rec, sim, nid, o):
+        if not rec.cfg.get('dyn') or nid >= RO_BASE:
+            return
+        log = self.log_of(o)
+        actual = self.members_of(o)
+        old = self.prev_log.get(nid)
+        applied = g(o, 'raftLastApplied')
+        if old is None or not log:
+            self.shadow[nid] = set(actual)
+        else:
+            # common prefix of the old and the new log (by index and term)
+            new_by_idx = dict((e[1], e) for e in log)
+            old_by_idx = dict((e[1], e) for e in old)
+            wholesale = (log[0][1] > old[-1][1]) or (g(o, 'raftLastApplied') > self.prev.get(nid, (0, 0))[1] and
+                                                      self.entry_at(log, self.prev.get(nid, (0, 0))[1] + 1) is None
+                                                      and g(o, 'raftLastApplied') > old[-1][1])
+            if wholesale:
+                self.shadow[nid] = set(actual)      # snapshot installed: the member set comes with it
+                self.stats['snap_installs'] += 1
+            else:
+                sh = self.shadow.get(nid, set(actual))
+                gone = [e for e in old if e[1] not in new_by_idx or new_by_idx[e[1]][2] != e[2]]
+                came = [e for e in log if e[1] not in old_by_idx or old_by_idx[e[1]][2] != e[2]]
+                first_new = log[0][1]
+                for e in sorted(gone, key=lambda e: -e[1]):
+                    if e[1] < first_new:
+                        continue            # compacted away, not truncated
+                    kind, a, b = sim.cid_of_command(e[0])
+                    if kind == 2:
+                        if a == 1:
+                            sh.discard(b)
+                        elif b != nid:
+                            sh.add(b)
+                for e in sorted(came, key=lambda e: e[1]):
+                    kind, a, b = sim.cid_of_command(e[0])
+                    if kind == 2 and b != nid:
+                        if a == 1:
+                            sh.add(b)
+                        else:
+                            sh.discard(b)
+                    if kind == 2 and g(o, 'raftState') == 2 and e[2] == g(o, 'raftCurrentTerm'):
+                        # the gate, at the leader that appended it
+                        pend = [x for x in log if x[1] < e[1] and x[1] > applied and sim.cid_of_command(x[0])[0] == 2]
+                        noop = g(o, 'noopIDx')
+                        if pend:
+                            self.rec('C10', 'leader %d accepted membership change at position %d while the change at position %d is not yet applied'
+                                     % (nid, e[1], pend[0][1]))
+                        if noop is not None and applied < noop and e[1] > noop:
+                            self.rec('C10', 'leader %d accepted membership change at position %d before committing an entry of its own term'
+                                     % (nid, e[1]))
+                self.shadow[nid] = sh
+                if sh != actual:
+                    self.rec('C10', 'node %d: member set %r differs from the set defined by the membership commands in its log %r'
+                             % (nid, sorted(actual), sorted(sh)))
+                    self.shadow[nid] = set(actual)
+        self.prev_log[nid] = log
+
+    # ---- C18 / C20 -----------------------------------------------------------------------------------
+    def check_c18_c20(self, rec, sim, ev, nid, o):
+        role = g(o, 'raftState')
+        if nid >= RO_BASE:
+            if role != 0:
+                self.rec('C18', 'read-only node %d has role %d' % (nid, role))
+            for s_, d_, m in sim.sent:
+                if m['type'] in ('request_vote', 'response_vote'):
+                    self.rec('C18', 'read-only node %d sent %s' % (nid, m['type']))
+            return
+        for who, old, new in sim.roles:
+            if new == 2:
+                self.became_leader_at[nid] = sim.now
+        others = self.members_of(o)
+        seen = self.member_since.setdefault(nid, {})
+        for x in others:
+            seen.setdefault(x, sim.now)      # a voter the node learnt of just now cannot have been silent for long
+        for x in list(seen):
+            if x not in others:
+                del seen[x]
+        if ev[0] == 'tick' and role == 2:
+            now = ev[2]
+            fb = rec.cfg['fallback']
+            base = self.became_leader_at.get(nid, now)
+            heard = 1
+            for x in others:
+                t = max(self.heard.get(nid, {}).get(x, -10 ** 9), base, seen.get(x, -10 ** 9))
+                if t > now - fb:
+                    heard += 1
+            if 2 * heard <= len(others) + 1:
+                self.rec('C20', 'node %d still leader at %s although it heard from only %d of %d voters within the fallback timeout %s'
+                         % (nid, now, heard, len(others) + 1, fb))
+        # has-quorum indicator
+        conn = set(sim.tr(nid).connected) & others
+        want = 2 * (len(conn) + 1) > len(others) + 1
+        try:
+            hq = o.hasQuorum
+        except Exception:
+            hq = None
+        if hq is not None and hq != want and set(SIM.nid_of(x) for x in g(o, 'connectedNodes')) & others == conn:
+            self.rec('C20', 'node %d: hasQuorum is %r but it is connected to %d of %d other voters' % (nid, hq, len(conn), len(others)))
+
+
+    # ---- C06 / C07: journaled nodes across restarts ----------------------------------------------------
+    def check_c06_c07(self, rec, sim, ev, nid, o):
+        if nid >= RO_BASE:
+            return
+        inc = self.incarnation.get(nid, 0)
+        term = g(o, 'raftCurrentTerm')
+        log = self.log_of(o)
+        # votes: a response_vote sent, or a candidacy (vote for itself)
+        grants = []
+        for s_, d_, m in sim.sent:
+            if m['type'] == 'response_vote':
+                grants.append((m['term'], d_))
+            if m['type'] == 'request_vote':
+                grants.append((m['term'], nid))
+        for t, cand in grants:
+            key = (nid, t)
+            if key in self.votes and self.votes[key][0] != cand:
+                other, inc0 = self.votes[key]
+                if inc0 != inc and self.journaled:
+                    self.trigger.setdefault('kf_c07_1', self.step)
+                    self.rec('C07', 'node %d granted its vote in term %d to %d and, after a restart, to %d' % (nid, t, other, cand),
+                             finding='KF-C07-1')
+                elif inc0 == inc:
+                    self.rec('C07', 'node %d granted its vote in term %d to both %d and %d' % (nid, t, other, cand))
+            self.votes.setdefault(key, (cand, inc))
+        # terms: never follow an older term than one already acknowledged
+        mt = self.max_term_seen.get(nid)
+        if mt is not None and term < mt[0]:
+            if mt[1] != inc and self.journaled:
+                self.trigger.setdefault('kf_c07_1', self.step)
+                if not getattr(self, '_term_regress_reported', {}).get((nid, inc)):
+                    self.__dict__.setdefault('_term_regress_reported', {})[(nid, inc)] = True
+                    self.rec('C07', 'node %d runs in term %d after a restart although it had acknowledged term %d' % (nid, term, mt[0]),
+                             finding='KF-C07-2')
+            elif mt[1] == inc:
+                self.rec('C07', 'node %d: term moved backwards %d -> %d' % (nid, mt[0], term))
+        if mt is None or term >= mt[0]:
+            self.max_term_seen[nid] = (term, inc)
+        if not self.journaled:
+            return
+        # what the node acknowledged: success replies, and as leader everything it counted itself for
+        ack = self.acked.setdefault(nid, {})
+        for s_, d_, m in sim.sent:
+            if m['type'] == 'next_node_idx' and m['success']:
+                upto = m['next_node_idx'] - 1
+                for e in log:
+                    if e[1] <= upto:
+                        ack[e[1]] = e[2]
+        if g(o, 'raftState') == 2:
+            for e in log:
+                ack[e[1]] = e[2]
+        # entries that were overwritten by a legitimate leader are no longer owed
+        for e in log:
+            if e[1] in ack and ack[e[1]] != e[2]:
+                ack[e[1]] = e[2]
+        # recovery check: right after the restart (the first tick loads the dump and trims the journal)
+        pend = getattr(self, 'pending_recovery', set())
+        if nid in pend and ev[0] == 'tick':
+            pend.discard(nid)
+            base = log[0][1] if log else 0
+            lost = [i for i, t in sorted(ack.items()) if i >= base and (self.entry_at(log, i) is None or self.entry_at(log, i)[2] != t)]
+            if lost:
+                self.rec('C06', 'node %d restarted without acknowledged entries %r (journal now covers %d..%d)'
+                         % (nid, lost[:6], base, log[-1][1] if log else 0))
+            for i in [i for i in ack if i > (log[-1][1] if log else 0)]:
+                del ack[i]
